@@ -71,6 +71,12 @@ theorem wpA_bind (x : Res ε α) (f : α → Res ε β) (Q : β → Prop) :
 @[simp] theorem map_ok (g : α → β) (a : α) : (g <$> (Res.ok a : Res ε α)) = .ok (g a) := rfl
 @[simp] theorem map_err (g : α → β) (e : ε) : (g <$> (Res.err e : Res ε α)) = .err e := rfl
 
+theorem wp_bind' (x : Res ε α) (f : α → Res ε β) (Q : β → Prop) :
+    (x.bind f).wp Q = x.wp (fun a => (f a).wp Q) := by cases x <;> rfl
+theorem wpA_bind' (x : Res ε α) (f : α → Res ε β) (Q : β → Prop) :
+    (x.bind f).wpA Q = x.wpA (fun a => (f a).wpA Q) := by cases x <;> rfl
+@[simp] theorem bind_eq_bind (x : Res ε α) (f : α → Res ε β) : (x >>= f) = x.bind f := rfl
+
 theorem wp_mono {r : Res ε α} {Q Q' : α → Prop} (h : r.wp Q) (hq : ∀ a, Q a → Q' a) : r.wp Q' := by
   cases r <;> simp_all [wp]
 theorem wpA_mono {r : Res ε α} {Q Q' : α → Prop} (h : r.wpA Q) (hq : ∀ a, Q a → Q' a) : r.wpA Q' := by
